@@ -7,13 +7,15 @@ from contracts.logix_requests import DB
 LD = "pycomm3.logix_driver.LogixDriver"
 CONN = DB + ["d._session = 77", "d._target_cid = b'\\x01\\x02\\x03\\x04'", "d._target_is_connected = True", "d._connection_opened = True",
              "d._cfg['use_instance_ids'] = use_ids"]
-ST = P.oneof(P.const("0"), P.const("5"))
+ST = P.oneof(P.const("0"), P.const("5"), P.const("6"))      # 6 (partial transfer) is an error for Read Tag / Write Tag / Read Modify Write
 PATH = "spec.abstract.bytes_of(pycomm3.packets.util.tag_request_path, {tag!r}, tags[{base!r}], use_ids)"
 
 # (request, base tag for the path, reply type field, data size, expected value expr over `dN`, expected type string)
 R = {
     "d": ("d", "d", "b'\\xc4\\x00'", 4, "spec.cip_codec.decode_int('DINT', {d})", "'DINT'"),
     "d.5": ("d", "d", "b'\\xc4\\x00'", 4, "spec.logix.bit_of(spec.cip_codec.decode_int('DINT', {d}), 5)", "'BOOL'"),
+    "d.0": ("d", "d", "b'\\xc4\\x00'", 4, "spec.logix.bit_of(spec.cip_codec.decode_int('DINT', {d}), 0)", "'BOOL'"),
+    "d.31": ("d", "d", "b'\\xc4\\x00'", 4, "spec.logix.bit_of(spec.cip_codec.decode_int('DINT', {d}), 31)", "'BOOL'"),
     "arr[2]{3}": ("arr[2]", "arr", "b'\\xc3\\x00'", 6, "[spec.cip_codec.decode_int('INT', {d}[2*i:2*i+2]) for i in range(3)]", "'INT[3]'"),
     "ba[3]{40}": ("ba[0]", "ba", "b'\\xd3\\x00'", 8, "(spec.cip_codec.decode_bits('DWORD', {d}[:4]) + spec.cip_codec.decode_bits('DWORD', {d}[4:]))[3:43]", "'BOOL[40]'"),
     "u": ("u", "u", "b'\\xa0\\x02\\x34\\x12'", 8, "spec.logix.udt_view(8, [('x', 0, 'DINT'), ('y', 6, 'INT')], {{'flag': (4, 3)}}, set(), {d})", "'MyUdt'"),
@@ -60,6 +62,8 @@ def _read_contract(cid, reqs):
 
 _read_contract("read.one.d", ["d"])
 _read_contract("read.one.bit", ["d.5"])
+_read_contract("read.one.bit0", ["d.0"])            # the lowest and the highest bit: boundary values of the bit number
+_read_contract("read.bits.edges", ["d", "d.0", "d.31"])
 _read_contract("read.one.invalid", ["nope"])
 _read_contract("read.one.boolarray", ["ba[3]{40}"])
 _read_contract("read.two", ["d", "arr[2]{3}"])
@@ -228,4 +232,23 @@ contract(
              "bool(result[0]) == (st1 == 0) and bool(result[2]) == (st1 == 0) and bool(result[1]) == (st0 == 0)",
              "result[0].tag == 'd.3' and result[2].tag == 'd.3' and result[1].tag == 'd'",
              "spec.encap.try_parse_frame(t.sent[1])[3][3] == spec.logix.rmw_request(" + PATH.format(tag="d", base="d") + ", 4, m[0], m[1])"],
+    props=["C03", "C02"], max_paths=20000)
+
+# bit 0 (the boundary value of the bit number): alone and beside a plain write
+contract(
+    id="write.bit.zero", func=LD + ".write", call="d.write('d.0', b1)",
+    params={"use_ids": P.bool(), "head": P.bytes(len=46), "b1": P.bool(), "st1": ST},
+    requires=["spec.encap.le(head, 8, 4) == 0"],
+    setup=CONN + ["t = spec.env.Transport([head + spec.logix.sub_reply(0x4e, st1)])", "d._sock = t", "m = spec.logix.rmw_masks(4, [(0, b1)])"],
+    ensures=["bool(result) == (st1 == 0)", "result.tag == 'd.0'", "result.type == 'BOOL'", "len(t.sent) == 1",
+             "spec.encap.try_parse_frame(t.sent[0])[3][3] == spec.logix.rmw_request(" + PATH.format(tag="d", base="d") + ", 4, m[0], m[1])"],
+    props=["C03", "C02"], max_paths=20000)
+contract(
+    id="write.bit.zero.multi", func=LD + ".write", call="d.write(('d.0', b1), ('arr[1].0', b2), ('d', v))",
+    params={"use_ids": P.bool(), "head": P.bytes(len=46), "b1": P.bool(), "b2": P.bool(), "v": P.int(-2**31, 2**31 - 1), "st0": ST, "st1": ST, "st2": ST},
+    requires=["spec.encap.le(head, 8, 4) == 0"],
+    setup=CONN + ["t = spec.env.Transport([spec.logix.multi_reply(head, [spec.logix.sub_reply(0x4d, st0)]), head + spec.logix.sub_reply(0x4e, st1), "
+                  "head + spec.logix.sub_reply(0x4e, st2)])", "d._sock = t"],
+    ensures=["len(result) == 3", "[r.tag for r in result] == ['d.0', 'arr[1].0', 'd']", "result[0].type == 'BOOL' and result[1].type == 'BOOL' and result[2].type == 'DINT'",
+             "bool(result[0]) == (st1 == 0) and bool(result[1]) == (st2 == 0) and bool(result[2]) == (st0 == 0)", "len(t.sent) == 3"],
     props=["C03", "C02"], max_paths=20000)
